@@ -27,9 +27,11 @@ STRATA = ["grid", "grid", "grid+", "grid-", "off2+", "off2-", "mid", "q1", "q3",
           "lo", "hi", "hi+"]
 
 
-def _fn(kind, name):
+def _fn(kind, name, default=False):
     import inferno.functional as F
 
+    if default and name == "nearest":
+        return None  # documented default: nearest
     return getattr(F, f"{kind}_{name}")
 
 
@@ -95,11 +97,17 @@ def _finite(*xs):
     return all(np.isfinite(x) for x in xs)
 
 
-def _close(a, b, f32):
+def _close(a, b, f32, extra=0.0):
+    """extra: absolute allowance for the sensitivity of the documented formula to the rounding of the time."""
     if not _finite(a, b):
         return _same(a, b)
     tol = 2e-5 * (1 + abs(b)) if f32 else 1e-9 * (1 + abs(b))
-    return abs(a - b) <= tol
+    return abs(a - b) <= tol + extra
+
+
+def _dt_err(t, dt, tdtype):
+    """bound on the error of the elapsed time computed by the implementation in the time's dtype."""
+    return 16 * tm.EPS[tdtype] * max(abs(t), dt)
 
 
 def run_case(case):
@@ -132,6 +140,8 @@ def run_case(case):
     st_ = dict.fromkeys(["off", "on", "amb", "rej", "distinct_bracket", "roundtrip", "insert_off",
                          "tensor", "scalar", "D"], 0)
     f32data = case["dtype"] in ("float32", "int64")
+    dyadic_dt = dt in (0.25, 0.5, 1.0)  # ties at exactly half a step are decisive only where the arithmetic is exact
+    prev_tensor = None
     idxs = [tuple(ix) for ix in np.ndindex(*shape)] if shape else [()]
 
     for oi, op in enumerate(case["ops"]):
@@ -207,7 +217,13 @@ def run_case(case):
 
         if op["op"] == "select":
             with impl(what):
-                got = rt.select(targ, _fn("interp", name), tolerance=tol, offset=off, interp_kwargs=kw)
+                if mode != "scalar" and op.get("reuse") and prev_tensor is not None and prev_tensor.shape == targ.shape \
+                        and prev_tensor.dtype == targ.dtype:
+                    prev_tensor.copy_(targ)  # the caller updates ITS time tensor in place and selects again
+                    targ = prev_tensor
+                got = rt.select(targ, _fn("interp", name, op.get("default")), tolerance=tol, offset=off, interp_kwargs=kw)
+                if mode != "scalar":
+                    prev_tensor = targ
             want_shape = shape + (D,) if mode == "tensorD" else shape
             check(tuple(got.shape) == want_shape, "select:shape",
                   lambda: f"{what}: shape {tuple(got.shape)} != {want_shape}")
@@ -225,15 +241,20 @@ def run_case(case):
                     if not _finite(o_, n_) and name not in ("previous", "next", "nearest"):
                         st_["amb"] += 1  # arithmetic on inf/nan samples is not asserted
                         continue
-                    want, amb = tm.interp(name, o_, n_, elapsed, dt, tau)
+                    want, amb = tm.interp(name, o_, n_, elapsed, dt, tau, exact_tie=dyadic_dt)
                     if amb:
                         st_["amb"] += 1
                         continue
                     st_["off"] += 1
                     if o_ != n_:
                         st_["distinct_bracket"] += 1
+                extra = 0.0
+                if status == "off" and name == "linear":
+                    extra = abs(n_ - o_) / dt * _dt_err(float(tvals[key]), dt, tdtype)  # slope x error of the elapsed time
+                elif status == "off" and name in ("expdecay", "expratedecay"):
+                    extra = abs(o_) / tau * _dt_err(float(tvals[key]), dt, tdtype)
                 check(
-                    _same(g[key], want) if (status == "on" or name in ("previous", "next", "nearest")) else _close(g[key], want, f32),
+                    _same(g[key], want) if (status == "on" or name in ("previous", "next", "nearest")) else _close(g[key], want, f32, extra),
                     f"select:{status}grid",
                     lambda: f"{what} interp={name} elem={key} t={tvals[key]!r} (dt={dt}, tol={tol}, N={n}, ptr={ptr}, "
                             f"offset={off}, {status} k={k} older={older} newer={newer} elapsed={elapsed}): got {g[key]!r} want {want!r}",
@@ -241,9 +262,16 @@ def run_case(case):
         else:
             xvals = np.array([op["pool"][j % len(op["pool"])] * 0.25 for j in range(numel)]).reshape(shape)
             before = [np.array(h) for h in ring.hist]
+            odt = DT[case["dtype"]]
+            if op.get("odt") == "other":
+                odt = torch.float64 if odt == torch.float32 else torch.float32
             with impl(what):
-                rt.insert(torch.tensor(xvals, dtype=DT[case["dtype"]]), targ, _fn("extrap", name),
+                rt.insert(torch.tensor(xvals, dtype=odt), targ, _fn("extrap", name, op.get("default")),
                           tolerance=tol, offset=off, inplace=op["inplace"], extrap_kwargs=kw)
+                sdt = rt.value.dtype
+            check(sdt == DT[case["dtype"]], "insert:dtype",
+                  lambda: f"{what} extrap={name}: storage dtype became {sdt} (record dtype {case['dtype']}, observation dtype {odt}); "
+                          "inserted values must be cast back to the data type of the storage")
             # expected contents per slot/element: (value, exact?) or None = unknown (ambiguous)
             expect = {}
             for key, (status, k, older, newer, elapsed) in cl.items():
@@ -275,7 +303,7 @@ def run_case(case):
                         o_ = float(ADJUST[adj](o_))
                     else:
                         n_ = float(ADJUST[adj](n_))
-                (eo, en), amb = tm.extrap(name, x, elapsed, o_, n_, dt, tau)
+                (eo, en), amb = tm.extrap(name, x, elapsed, o_, n_, dt, tau, exact_tie=dyadic_dt)
                 if amb:
                     st_["amb"] += 1
                     expect[((off + older) % n, ix)] = None
@@ -284,8 +312,16 @@ def run_case(case):
                 st_["off"] += 1
                 st_["insert_off"] += 1
                 exact = name in ("previous", "next", "neighbors", "nearest")
-                expect[((off + older) % n, ix)] = (eo, exact or (eo == o_ and not adj))
-                expect[((off + newer) % n, ix)] = (en, exact or (en == n_ and not adj))
+                derr = _dt_err(float(tvals[key]), dt, tdtype)
+                ex_o = ex_n = 0.0
+                if name == "linear_forward":
+                    ex_n = abs(x - o_) * dt / (elapsed * elapsed) * derr
+                elif name == "linear_backward":
+                    ex_o = abs(n_ - x) * dt / ((dt - elapsed) ** 2) * derr
+                elif name in ("expdecay", "expratedecay"):
+                    ex_o, ex_n = abs(eo) / tau * derr, abs(en) / tau * derr
+                expect[((off + older) % n, ix)] = (eo, exact or (eo == o_ and not adj), ex_o)
+                expect[((off + newer) % n, ix)] = (en, exact or (en == n_ and not adj), ex_n)
             with impl("read back after " + what):
                 after = [rt.read(k).detach().to(torch.float64).numpy().reshape(shape) for k in range(n)]
                 check(rt.pointer == ptr and rt.recordsz == n, "insert:pointer",
@@ -297,8 +333,9 @@ def run_case(case):
                     if e is None:
                         continue
                     wantv, exact = e[0], e[1]
-                    untouched = len(e) == 3
-                    ok = _same(gotv, wantv) if exact else _close(gotv, wantv, f32)
+                    untouched = len(e) == 3 and e[2] == "untouched"
+                    extra_w = e[2] if (len(e) == 3 and not untouched) else 0.0
+                    ok = _same(gotv, wantv) if exact else _close(gotv, wantv, f32, extra_w)
                     check(ok, "insert:untouched" if untouched else "insert:written",
                           lambda: f"{what} extrap={name} slot k={k} elem={ix} times={tvals.ravel().tolist()} (dt={dt}, tol={tol}, "
                                   f"N={n}, ptr={ptr}, offset={off}, inplace={op['inplace']}): got {gotv!r} want {wantv!r} "
@@ -370,12 +407,20 @@ def _op(draw):
         "offset": draw(st.sampled_from([0, 1, 2, 3, 0, 1, -1, -2, -3])),
         "tau": draw(st.sampled_from([0.7, 2.0, 10.0])),
         "D": draw(st.integers(1, 3)),
+        "default": draw(st.integers(0, 3)) == 0, "reuse": draw(st.booleans()),
     }
+    if op["default"]:
+        op["fn"] = "nearest"  # the documented default (interp / extrap left at None) is nearest
+    if op["fn"] == "nearest" and draw(st.booleans()):
+        # ties at exactly half a step (decisive for dyadic dt): the documented side is the older sample
+        op["times"] = [[sp[0], "mid", sp[2]] for sp in op["times"]]
+    fn = op["fn"]
     if kind == "insert":
         op["inplace"] = draw(st.booleans())
         op["pool"] = draw(st.lists(st.integers(-20, 20), min_size=1, max_size=4))
         op["roundtrip"] = draw(st.sampled_from(tm.ROUNDTRIP[fn] + [None]))
         op["adjust"] = draw(st.sampled_from([None, None, "half", "plus"]))
+        op["odt"] = draw(st.sampled_from(["same", "same", "other"]))
     return op
 
 
